@@ -25,19 +25,23 @@ func (gs GenesisState) Validate() error {
 	seenDenom := make(map[string]bool)
 
 	for _, b := range gs.TokenPairs {
-		if seenErc20[b.ERC20Address] {
-			return fmt.Errorf("token ERC20 contract duplicated on genesis '%s'", b.ERC20Address)
-		}
-		if seenDenom[b.Denoms[0]] {
-			return fmt.Errorf("coin denomination duplicated on genesis: '%s'", b.Denoms[0])
-		}
-
 		if err := b.Validate(); err != nil {
 			return err
 		}
 
-		seenErc20[b.ERC20Address] = true
-		seenDenom[b.Denoms[0]] = true
+		// the registry is indexed by the contract address (not by its spelling) and by every denomination of a pair
+		erc20 := b.GetERC20Contract().String()
+		if seenErc20[erc20] {
+			return fmt.Errorf("token ERC20 contract duplicated on genesis '%s'", b.ERC20Address)
+		}
+		for _, denom := range b.Denoms {
+			if seenDenom[denom] {
+				return fmt.Errorf("coin denomination duplicated on genesis: '%s'", denom)
+			}
+			seenDenom[denom] = true
+		}
+
+		seenErc20[erc20] = true
 	}
 
 	return gs.Params.Validate()
